@@ -12,6 +12,7 @@
 # See the License for the specific language governing permissions and
 # limitations under the License.
 
+import functools
 import hashlib
 import io
 import pickle
@@ -22,6 +23,7 @@ import sys
 import traceback
 from abc import ABC, abstractmethod
 from collections import deque, namedtuple
+from threading import RLock
 from time import sleep
 from typing import List, Iterable, Dict, Type, Optional, Union, cast
 from weakref import WeakValueDictionary
@@ -1081,9 +1083,24 @@ class _CacheEntry:
         self.has_value = has_value
 
 
+def _synchronized(method):
+    """Run the method while holding the lock of the object it is called on"""
+
+    @functools.wraps(method)
+    def wrapper(self, *args, **kwargs):
+        with self._lock:
+            return method(self, *args, **kwargs)
+
+    return wrapper
+
+
 class MemoryCache:
     """
-    Write-through memory cache for memoized data
+    Write-through memory cache for memoized data.
+
+    One cache is shared by all threads that call functions of a cluster. Each public method
+    reads and updates several structures (the entries, the recency queue and the usage counter),
+    so they are serialized by a lock.
 
     """
 
@@ -1099,6 +1116,7 @@ class MemoryCache:
         self.lru_deque = deque()
         self.cache = dict()
         self.refs = WeakValueDictionary()
+        self._lock = RLock()
 
     @staticmethod
     def _pd_mem_usage(obj: Union[pd.DataFrame, pd.Series]) -> int:
@@ -1200,6 +1218,7 @@ class MemoryCache:
         if cache_key in self.lru_deque:
             self.lru_deque.remove(cache_key)
 
+    @_synchronized
     def get_mementos(
         self, fns: List[FunctionReferenceWithArgHash]
     ) -> List[Optional[Memento]]:
@@ -1214,6 +1233,7 @@ class MemoryCache:
                 result.append(memento)
         return result
 
+    @_synchronized
     def read_result(self, memento: Memento) -> object:
         """Return the memento if it exists in the cache, else raise KeyError"""
         cache_key = self._cache_key_for_memento(memento)
@@ -1227,6 +1247,7 @@ class MemoryCache:
             # return a cached ref if it's still in memory
             return self.refs[cache_key]  # May raise KeyError
 
+    @_synchronized
     def is_memoized(self, fn_reference: FunctionReference, arg_hash: str) -> bool:
         cache_key = self._cache_key_for_fn(fn_reference, arg_hash)
         if cache_key in self.cache:
@@ -1234,6 +1255,7 @@ class MemoryCache:
             return True
         return cache_key in self.refs
 
+    @_synchronized
     def is_all_memoized(self, fns: Iterable[FunctionReferenceWithArguments]) -> bool:
         return all([self.is_memoized(x.fn_reference, x.arg_hash) for x in fns])
 
@@ -1245,6 +1267,7 @@ class MemoryCache:
             # to an older result for this key is not served in their place.
             self.refs.pop(cache_key, None)
 
+    @_synchronized
     def put(self, memento: Memento, result: object, has_result: bool):
         cache_key = self._cache_key_for_memento(memento)
         if has_result:
@@ -1280,6 +1303,7 @@ class MemoryCache:
         self.lru_deque.append(cache_key)
         self.memory_usage += obj_size
 
+    @_synchronized
     def forget_call(self, fn_with_arg_hash: FunctionReferenceWithArgHash):
         cache_key = self._cache_key_for_fn(
             fn_with_arg_hash.fn_reference, fn_with_arg_hash.arg_hash
@@ -1287,12 +1311,14 @@ class MemoryCache:
         self.refs.pop(cache_key, None)
         self._evict(cache_key)
 
+    @_synchronized
     def forget_everything(self):
         self.memory_usage = 0
         self.cache.clear()
         self.lru_deque.clear()
         self.refs.clear()
 
+    @_synchronized
     def forget_function(self, fn_reference: FunctionReference):
         qualified_name = fn_reference.qualified_name
         qualified_name_slash = qualified_name + "/"
